@@ -190,6 +190,44 @@ def render_and_track(ck: Check, n: int):
                 ck.fail("rendered field is not finite", {"check": "render_finite", "class": cls}, case)
         except Exception as e:  # noqa: BLE001
             ck.fail(f"rendering raised {type(e).__name__}: {e}", {"check": "render_total", "class": cls, "error": type(e).__name__}, case)
+    # perturbed droplets with non-zero amplitudes centred EXACTLY on a cell centre (zero distance: the angles are
+    # undefined there), every perturbed class on every compatible grid family; then locating a mirror-symmetric
+    # cluster (centre of mass exactly on a cell centre) with modes > 0 and refinement
+    from pde import CartesianGrid, ScalarField
+    from droplets.image_analysis import locate_droplets
+
+    for kind in kinds:
+        for cls in ("PerturbedDroplet2D", "PerturbedDroplet3D", "PerturbedDroplet3DAxisSym"):
+            grid = make_grid3(rng, kind)
+            if not compatible(cls, grid):
+                continue
+            d = make_droplet(rng, cls, grid, on_cell_centre=True)
+            d.amplitudes = [rng.choice([-1, 1]) * rng.uniform(0.05, 0.25) for _ in d.amplitudes]
+            ck.case(("render-centred", repr(grid), d.data.tobytes()))
+            ck.count("render_centred_perturbed." + cls)
+            case = {"kind": "render-centred", "grid": repr(grid), "droplet": str(d)}
+            try:
+                f = d.get_phase_field(grid)
+                if not np.all(np.isfinite(f.data)):
+                    ck.fail("rendered field is not finite", {"check": "render_finite", "class": cls}, case)
+            except Exception as e:  # noqa: BLE001
+                ck.fail(f"rendering raised {type(e).__name__}: {e}", {"check": "render_total", "class": cls, "error": type(e).__name__}, case)
+    for dim, n in ((2, 9), (3, 7), (3, 6)):
+        grid = CartesianGrid([[0, n * 0.8]] * dim, [n] * dim, periodic=[rng.random() < 0.5 for _ in range(dim)])
+        c = np.array([grid.axes_coords[a][n // 2] for a in range(dim)]) if n % 2 else np.array([grid.axes_bounds[a][0] + (n // 2) * 0.8 for a in range(dim)])
+        from droplets.droplets import DiffuseDroplet
+        field = DiffuseDroplet(c, 0.3 * n * 0.8, 0.8).get_phase_field(grid)
+        for modes in (1, 2, 4):
+            ck.case(("locate-symmetric", dim, n, modes, tuple(grid.periodic)))
+            ck.count("locate_symmetric_cluster")
+            case = {"kind": "locate-symmetric", "grid": repr(grid), "centre": c.tolist(), "modes": modes}
+            try:
+                em = locate_droplets(field, modes=modes, refine=True)
+                if any(not finite_droplet(x) for x in em):
+                    ck.fail("non-finite droplet parameters returned", {"check": "finite", "grid": "CartesianGrid", "modes_positive": True, "refine": True}, case)
+            except Exception as e:  # noqa: BLE001
+                ck.fail(f"locate_droplets(modes={modes}, refine=True) raised {type(e).__name__}: {e} on a mirror-symmetric cluster",
+                        {"check": "locate_total", "grid": "CartesianGrid", "modes_positive": True, "refine": True, "error": type(e).__name__}, case)
     # tracking arbitrary time courses (incl. empty frames, both methods)
     for _ in range(n):
         dim = rng.choice([1, 2, 3])
